@@ -264,7 +264,7 @@ def stream_files(ctx):
     nh = budget(ctx.tier, 60, 800)
     if ctx.drift:
         nh = max(nh, 250)
-    names = ['a', 'a.data', 'b', 'op_2.data']
+    names = ['a', 'a.data', 'b', 'op_2.data', 'metadata', 'x.dat']
     base = tempfile.mkdtemp(prefix='ofv_c20_', dir=os.environ.get('TMPDIR'))
     try:
         for h in range(nh):
